@@ -102,6 +102,11 @@ def mutants_of_line(ln):
     m = re.match(r"^(\s*\w[\w:]*\()(&?(?:mut )?[\w\.\*]+), (&?(?:mut )?[\w\.\*]+)(\).*)$", ln)
     if m and m.group(2) != m.group(3):
         out.append(("sub:swap-args", m.group(1) + m.group(3) + ", " + m.group(2) + m.group(4)))
+    # --- third operator set (exchanges that type-check: casts through a narrower type, hex constants)
+    for m in re.finditer(r" as (u16|u32|u64|i32|i64|usize|isize)\b", ln):
+        out.append(("cast:through-u8", ln[:m.start()] + " as u8 as " + m.group(1) + ln[m.end():]))
+    for m in re.finditer(r"\b0x([0-9a-fA-F]{1,4})\b", ln):
+        out.append(("hex:+1", ln[:m.start()] + "0x%x" % (int(m.group(1), 16) + 1) + ln[m.end():]))
     if re.match(r"^\s*[\w\.\*\[\]\(\)&]+(\.push|\.remove|\.retain|\.insert|\.append|\.extend|\.clear)\(.*\);\s*$", ln) or re.match(r"^\s*(break|continue);\s*$", ln) \
             or re.match(r"^\s*[\w\.\*\[\]]+ (=|\+=|-=) [^=].*;\s*$", ln):
         out.append(("stmt:deleted", re.match(r"^\s*", ln).group(0) + "// (deleted)"))
@@ -123,6 +128,34 @@ def generate():
             if re.match(r"^\s+[\w\.\*\[\]\(\)&]+.*;\s*$", a) and re.match(r"^\s+[\w\.\*\[\]\(\)&]+.*;\s*$", b) and not a.strip().startswith(("let ", "return", "//")) \
                     and not b.strip().startswith(("let ", "return", "//")) and re.match(r"^\s*", a).group(0) == re.match(r"^\s*", b).group(0):
                 muts.append({"file": f, "line": i + 1, "op": "swap:adjacent", "old": a + "\n" + b, "new": b + "\n" + a, "span": 2})
+        # third operator set: same-typed things exchanged
+        #  (a) the string of one `.get("x")` / `"x" =>` replaced by another attribute name used within 12 lines
+        for i in range(end):
+            for mm in re.finditer(r'get\("(\w+)"\)', lines[i]):
+                near = []
+                for j in range(max(0, i - 12), min(end, i + 13)):
+                    near += re.findall(r'get\("(\w+)"\)', lines[j])
+                for other in sorted(set(near) - {mm.group(1)})[:2]:
+                    muts.append({"file": f, "line": i + 1, "op": "xchg:attribute-name", "old": lines[i],
+                                 "new": lines[i][:mm.start()] + 'get("%s")' % other + lines[i][mm.end():]})
+        #  (b) the values of two adjacent field initialisers exchanged
+        for i in range(end - 1):
+            ma = re.match(r"^(\s+)(\w+): (.+?)(,?)\s*$", lines[i])
+            mb = re.match(r"^(\s+)(\w+): (.+?)(,?)\s*$", lines[i + 1])
+            if ma and mb and ma.group(1) == mb.group(1) and ma.group(3) != mb.group(3) and "{" not in ma.group(3) + mb.group(3):
+                muts.append({"file": f, "line": i + 1, "op": "xchg:field-values", "old": lines[i] + "\n" + lines[i + 1], "span": 2,
+                             "new": "%s%s: %s%s\n%s%s: %s%s" % (ma.group(1), ma.group(2), mb.group(3), ma.group(4), mb.group(1), mb.group(2), ma.group(3), mb.group(4))})
+        #  (c) two names of the same kind exchanged inside one line
+        for i in range(end):
+            for a, b in (("delay_ms", "interval_ms"), ("interval_ms", "delay_ms"), ("working_name", "working_sysfs_path"), ("KEYBOARD", "TABLET_SWITCH"), ("TABLET_SWITCH", "KEYBOARD"),
+                         ("EV_KEY", "EV_SYN"), ("input_pressed_keys", "pass_through_keys"), ("mapped_absorbed_keys", "input_pressed_keys"), ("initial", "terminal")):
+                s = lines[i].strip()
+                if s.startswith("//") or "println!" in s or "format!" in s:
+                    continue
+                ms = list(re.finditer(r"\b%s\b" % a, lines[i]))
+                if ms and not re.match(r"^\s*(pub )?(let|const|fn|struct|enum)\b", lines[i]) and not re.match(r"^\s*%s:" % a, lines[i]):
+                    m0 = ms[-1]
+                    muts.append({"file": f, "line": i + 1, "op": "xchg:%s->%s" % (a, b), "old": lines[i], "new": lines[i][:m0.start()] + b + lines[i][m0.end():]})
     keep = []
     for m in muts:
         h = int(hashlib.sha1(("%s:%d:%s:%s" % (m["file"], m["line"], m["op"], m["new"])).encode()).hexdigest(), 16)
